@@ -28,4 +28,17 @@ def handleRevPlan (j : Json) : Json :=
   Json.mkObj [("reversible", Json.bool (reversible p)),
     ("reverses", jarr (p.map (fun c => jstrs (c.reverse.map stmtKind))))]
 
+def parseAlterCh (k : String) : Atlas.Reverse.AlterCh :=
+  match k with
+  | "add-check-named" => .addCheck true
+  | "add-check-unnamed" => .addCheck false
+  | "modify-column" => .modifyColumn false
+  | "modify-column-generated" => .modifyColumn true
+  | _ => .other
+
+/-- op "alter.flag": {pg, changes:[kind]} -> {reversible} -/
+def handleAlterFlag (j : Json) : Json :=
+  let cs := (strs j "changes").map parseAlterCh
+  Json.mkObj [("reversible", Json.bool (Atlas.Reverse.alterFlag (Atlas.Reverse.alterInv (bool j "pg")) cs))]
+
 end Driver
